@@ -265,7 +265,9 @@ def inDomain (env : Env) (a : Annotation) (ion : Key) (mono : Bool) (adducts : O
       | .ok map => map.all (fun p => p.2.all (modResolves env mono))) &&
   (match adducts with
     | none => true
-    | some s => (ion = ionP || ion = ionN) && (splitComma s).all (fun x => match parseIonElements x with | .ok _ => true | .error _ => false))
+    | some s => (ion = ionP || ion = ionN) && (splitComma s).all (fun x => match parseIonElements x with
+        | .ok (_, sym, _) => sym = kE || (lookup sym (if mono then isotopicMasses else averageMasses)).isSome
+        | .error _ => false))
 
 /-- executable form used by the oracle: `none` = outside the domain -/
 def specMass (T : MassTable) (env : Env) (a : Annotation) (ion : Key) (charge : Int) (mono : Bool) (isotope : Int)
